@@ -46,7 +46,7 @@ def sig_typed(node):
         return None
     k = type(node).__name__
     if isinstance(node, E.ConstantExpression):
-        return (k, (type(node.value).__name__, repr(node.value)), sig_typed(node.left),
+        return (k, (type(node.value).__name__, vrepr(node.value)), sig_typed(node.left),
                 sig_typed(node.right))
     if isinstance(node, E.VariableExpression):
         return (k, node.identifier, sig_typed(node.left), sig_typed(node.right))
@@ -69,7 +69,7 @@ def sig_hash(root):
             continue
         if done:
             if isinstance(n, E.ConstantExpression):
-                pay = (type(n.value).__name__, repr(n.value))
+                pay = (type(n.value).__name__, vrepr(n.value))
             elif isinstance(n, E.VariableExpression):
                 pay = n.identifier
             else:
@@ -88,12 +88,20 @@ def sig_hash(root):
     return out[id(root)]
 
 
+def vrepr(v) -> str:
+    """repr of a constant's value that never fails: Python refuses to print ints of more
+    than 4300 digits (ValueError), and a parser may legitimately hold one."""
+    if isinstance(v, int) and not isinstance(v, bool) and v.bit_length() > 12000:
+        return f"<int of {v.bit_length()} bits, hash {hash(v)}>"
+    return repr(v)
+
+
 def brief(root, limit=14) -> str:
     """Short iterative description: the first few nodes in preorder."""
     names = []
     for n in nodes_preorder(root)[:limit]:
         if isinstance(n, E.ConstantExpression):
-            names.append(repr(n.value))
+            names.append(vrepr(n.value))
         elif isinstance(n, E.VariableExpression):
             names.append(str(n.identifier))
         else:
@@ -106,7 +114,7 @@ def show(node) -> str:
     if node is None:
         return "_"
     if isinstance(node, E.ConstantExpression):
-        return repr(node.value) if not isinstance(node.value, np.generic) else f"np({node.value!r})"
+        return vrepr(node.value) if not isinstance(node.value, np.generic) else f"np({node.value!r})"
     if isinstance(node, E.VariableExpression):
         return str(node.identifier)
     names = {"AddExpression": "+", "SubtractExpression": "-", "MultiplyExpression": "*",
@@ -411,6 +419,16 @@ def _fmt_env(env):
     return "{" + ",".join(f"{k}={v}" for k, v in sorted(env.items())) + "}"
 
 
+def _ffmt(v) -> str:
+    """float(v) for a message; exact values beyond the float range are described instead."""
+    try:
+        return repr(float(v))
+    except (OverflowError, ValueError):
+        n = getattr(v, "numerator", 0)
+        d = getattr(v, "denominator", 1)
+        return f"<rational of about 2^{n.bit_length() - d.bit_length()}{', negative' if n < 0 else ''}>"
+
+
 def compare_expr(a, b, points, exact=False) -> Cmp:
     """exact=True demands identical rational values (used where no rounding is
     licensed, e.g. printing and re-parsing a tree)."""
@@ -429,7 +447,7 @@ def compare_expr(a, b, points, exact=False) -> Cmp:
             out.indet += 1
         elif c == "diff":
             out.verdict = "diff"
-            out.witness = f"at {_fmt_env(env)}: {float(v1)!r} vs {float(v2)!r}"
+            out.witness = f"at {_fmt_env(env)}: {_ffmt(v1)} vs {_ffmt(v2)}"
             return out
     if out.checked == 0:
         out.verdict = "unchecked"
@@ -511,7 +529,7 @@ def compare_eqn_exact(a, b, points, planted) -> Cmp:
             out.checked += 1
             if v1 != v2:
                 out.verdict = "diff"
-                out.witness = f"{side} side at {_fmt_env(env)}: {float(v1)!r} vs {float(v2)!r} (exact difference {float(v1 - v2)!r})"
+                out.witness = f"{side} side at {_fmt_env(env)}: {_ffmt(v1)} vs {_ffmt(v2)} (exact difference {_ffmt(v1 - v2)})"
                 return out
     if out.checked == 0:
         out.verdict = "unchecked"
